@@ -23,14 +23,15 @@ Theorems (for spelled paths in the decidable domain `inDomain` = `Spell.wf` and 
                               parse = build, `C01_refines`, `C18_text_irrelevant_spec`);
   `C18_spellings_same_values` hence both spellings return the same values on every canonical document, or both fail.
 
-The statements about `Parse` vs `Build` and about trees hold at full strength (`SpellParse_full_holds`,
-`C18_spellings_parse_same_full_holds`): every spelling choice of `SPath` except `[1:2:]` — for which the
-statement about TREES is false: `Parse` keeps the information that the step was omitted (`colon_tree_differs`;
-the recogniser part `SP.recognise_spell` covers it). NOT proved: that `[1:2:]` returns the same VALUES as
-`[1:2]` (`C18_spellings_same_values_full`; it needs that evaluation ignores the flag — `Impl.subIndexes` reads
-`t.number` only — and a simulation of the actions up to that flag).
+All full-strength statements hold (`SpellParse_full_holds`, `C18_spellings_parse_same_full_holds`,
+`C18_spellings_same_values_full_holds`): every spelling choice of `SPath`. One spelling is special: `[1:2:]` (two
+colons, no step). For it the statement about TREES is false as it stands — `Parse` keeps the information that the
+step was omitted (`colon_tree_differs`) — and true up to that one flag (`normCh`, `SpellParse_norm`,
+`C18_spellings_parse_same_norm`); evaluation ignores the flag (`SP.refines_of_norm`), so the statement about VALUES
+holds for it too.
 -/
-import JPV.Lemmas.SpellSim0
+import JPV.Lemmas.SpellSimN
+import JPV.Lemmas.SpellNormSem
 import JPV.Lemmas.SpellErase
 import JPV.Props.C01
 import JPV.Props.C18
@@ -255,6 +256,142 @@ theorem C18_spellings_same_values (env : Env) (ext : Peg.Ext) (cfg : Cfg) (a b :
     runVals_eq_spec env ext cfg b hb hextb henvb chb hpb d hd, h]
 
 
+/-! ### `[1:2:]` too: everything up to the `omitted` flag of slice steps
+
+`normCh` (JPV/Lemmas/SpellNormDefs.lean) clears the `omitted` flag of every slice step of a tree — the one field
+in which the tree `Parse` builds for `[1:2:]` differs from the tree for `[1:2]`. No evaluation function reads it
+(`SP.den_norm`, `SP.refines_of_norm`), the action machine commutes with clearing it (`SP.execFrom_norm`), and up
+to it parse ∘ print = build ∘ texts holds for EVERY well-formed spelled path (`SP.spell_parse_norm_all`). -/
+
+/-- as `AgreesWithBuild`, the tree compared after `normCh` -/
+inductive AgreesWithBuildN : Except ParseErr (List N) → ParseOutcome → Prop
+  | ok (ch ch' : List N) (h : normCh ch' = ch) : AgreesWithBuildN (.ok ch) (.ok ch')
+  | functionNotFound (t : String) : AgreesWithBuildN (.error (.funcNotFound t)) (.functionNotFound t)
+  | valueGroup (pos : Nat) (near : String) :
+    AgreesWithBuildN (.error .valueGroupOperand) (.syntaxErr pos Reason.filterValueGroup.msg near)
+  | twoCurrentNodes (pos : Nat) (near : String) :
+    AgreesWithBuildN (.error .twoCurrentNodes) (.syntaxErr pos Reason.twoCurrentNode.msg near)
+
+/-- as `SameOutcome`, the trees compared after `normCh` -/
+inductive SameOutcomeN : ParseOutcome → ParseOutcome → Prop
+  | ok (ch ch' : List N) (h : eraseTexts (normCh ch) = eraseTexts (normCh ch')) : SameOutcomeN (.ok ch) (.ok ch')
+  | functionNotFound (t : String) : SameOutcomeN (.functionNotFound t) (.functionNotFound t)
+  | syntaxErr (pos pos' : Nat) (reason near near' : String) :
+    SameOutcomeN (.syntaxErr pos reason near) (.syntaxErr pos' reason near')
+
+theorem agreesN_of_outcome (input : Array Char) (pos : Nat) (b : Except ParseErr (List N)) (o : ParseOutcome)
+    (h : normOutcome o = outcomeOfBuild input pos b) : AgreesWithBuildN b o := by
+  cases b with
+  | ok ch =>
+    cases o with
+    | ok ch' =>
+      have : ParseOutcome.ok (normCh ch') = .ok ch := h
+      cases this
+      exact .ok _ ch' rfl
+    | _ => cases h
+  | error e =>
+    cases e with
+    | funcNotFound t =>
+      cases o with
+      | functionNotFound t' =>
+        have : ParseOutcome.functionNotFound t' = .functionNotFound t := h
+        cases this
+        exact .functionNotFound t
+      | _ => cases h
+    | valueGroupOperand =>
+      cases o with
+      | syntaxErr p r n =>
+        have : ParseOutcome.syntaxErr p r n = .syntaxErr pos Reason.filterValueGroup.msg (nearOf input pos) := h
+        cases this
+        exact .valueGroup pos _
+      | _ => cases h
+    | twoCurrentNodes =>
+      cases o with
+      | syntaxErr p r n =>
+        have : ParseOutcome.syntaxErr p r n = .syntaxErr pos Reason.twoCurrentNode.msg (nearOf input pos) := h
+        cases this
+        exact .twoCurrentNodes pos _
+      | _ => cases h
+
+/-- **parse ∘ print = build ∘ texts up to the `omitted` flag of slice steps, for EVERY well-formed spelled path** -/
+theorem SpellParse_norm (env : Env) (ext : Peg.Ext) (cfg : Cfg) (a : SPath) (hwf : Spell.wf a = true)
+    (hext : ExtOKS ext a) (henv : EnvOKS env a) :
+    AgreesWithBuildN (Build.build env cfg (Spell.texts a)) (parseModel env ext cfg (Spell.printS a)) := by
+  obtain ⟨pos, h⟩ := spell_parse_norm_all env ext cfg a hwf hext henv
+  exact agreesN_of_outcome _ pos _ _ h
+
+theorem sameN_of_agrees {b b' : Except ParseErr (List N)} {o o' : ParseOutcome} (hr : ChRel b b')
+    (h : AgreesWithBuildN b o) (h' : AgreesWithBuildN b' o') : SameOutcomeN o o' := by
+  cases h with
+  | ok ch c1 h1 =>
+    cases h' with
+    | ok ch' c2 h2 =>
+      refine .ok c1 c2 ?_
+      rw [h1, h2]
+      exact hr
+    | functionNotFound t => exact hr.elim
+    | valueGroup pos near => exact hr.elim
+    | twoCurrentNodes pos near => exact hr.elim
+  | functionNotFound t =>
+    cases h' with
+    | ok ch' c2 h2 => exact hr.elim
+    | functionNotFound t' =>
+      have he : ParseErr.funcNotFound t = .funcNotFound t' := hr
+      cases he
+      exact .functionNotFound t
+    | valueGroup pos near => cases (hr : ParseErr.funcNotFound t = .valueGroupOperand)
+    | twoCurrentNodes pos near => cases (hr : ParseErr.funcNotFound t = .twoCurrentNodes)
+  | valueGroup pos near =>
+    cases h' with
+    | ok ch' c2 h2 => exact hr.elim
+    | functionNotFound t' => cases (hr : ParseErr.valueGroupOperand = .funcNotFound t')
+    | valueGroup pos' near' => exact .syntaxErr _ _ _ _ _
+    | twoCurrentNodes pos' near' => cases (hr : ParseErr.valueGroupOperand = .twoCurrentNodes)
+  | twoCurrentNodes pos near =>
+    cases h' with
+    | ok ch' c2 h2 => exact hr.elim
+    | functionNotFound t' => cases (hr : ParseErr.twoCurrentNodes = .funcNotFound t')
+    | valueGroup pos' near' => cases (hr : ParseErr.twoCurrentNodes = .valueGroupOperand)
+    | twoCurrentNodes pos' near' => exact .syntaxErr _ _ _ _ _
+
+/-- **every spelling — `[1:2:]` included — parses to the same tree up to recorded texts and the `omitted` flag of
+    slice steps**, or both fail with the same kind of error -/
+theorem C18_spellings_parse_same_norm (env : Env) (ext : Peg.Ext) (cfg : Cfg) (a b : SPath)
+    (hwa : Spell.wf a = true) (hwb : Spell.wf b = true)
+    (hexta : ExtOKS ext a) (hextb : ExtOKS ext b) (henva : EnvOKS env a) (henvb : EnvOKS env b)
+    (h : a.erase = b.erase) :
+    SameOutcomeN (parseModel env ext cfg (Spell.printS a)) (parseModel env ext cfg (Spell.printS b)) :=
+  sameN_of_agrees (build_same env cfg _ _ (stripS_texts a b h))
+    (SpellParse_norm env ext cfg a hwa hexta henva) (SpellParse_norm env ext cfg b hwb hextb henvb)
+
+/-- **C01 for EVERY spelled string** (no `noColon`) -/
+theorem C18_spelling_C01_all (env : Env) (ext : Peg.Ext) (cfg : Cfg) (a : SPath) (hwf : Spell.wf a = true)
+    (hext : ExtOKS ext a) (henv : EnvOKS env a) (ch : List N)
+    (hparse : parseModel env ext cfg (Spell.printS a) = .ok ch) (d : Val) (hd : d.wf = true) :
+    (∃ vs rs st, Spec.run env a.erase d = some vs ∧ Impl.run env ch d = (.ok rs, st) ∧
+        rs.map Impl.Res.val = vs ∧ vs ≠ []) ∨
+    (∃ e st, Spec.run env a.erase d = none ∧ Impl.run env ch d = (.err e, st)) := by
+  have h := SpellParse_norm env ext cfg a hwf hext henv
+  rw [hparse] at h
+  generalize hb : Build.build env cfg (Spell.texts a) = b at h
+  cases h with
+  | ok ch0 _ hn =>
+    have := refines_of_norm env cfg (Spell.texts a) ch d (by rw [hb, hn]) hd
+    rw [spec_texts] at this
+    exact this
+
+/-- **the full-strength statement about values holds**: every spelling choice of `SPath`, `[1:2:]` included -/
+theorem C18_spellings_same_values_full_holds : C18_spellings_same_values_full := by
+  intro env ext cfg a b hwa hwb hea heb hva hvb h cha chb hpa hpb d hd
+  have key : ∀ (x : SPath) (hw : Spell.wf x = true) (he : ExtOKS ext x) (hv : EnvOKS env x) (ch : List N)
+      (hp : parseModel env ext cfg (Spell.printS x) = .ok ch), runVals env ch d = Spec.run env x.erase d := by
+    intro x hw he hv ch hp
+    unfold runVals
+    rcases C18_spelling_C01_all env ext cfg x hw he hv ch hp d hd with ⟨vs, rs, st, hs, hr, hvv, _⟩ | ⟨e, st, hs, hr⟩
+    · simp [hr, hs, hvv]
+    · simp [hr, hs]
+  rw [key a hwa hea hva cha hpa, key b hwb heb hvb chb hpb, h]
+
 /-! ### the hypotheses are satisfiable: concrete spellings -/
 
 /-- one filter function `f` -/
@@ -476,6 +613,33 @@ theorem colon_tree_differs :
   | syntaxErr _ _ _ _ _ => cases h1
 
 
+/-- … but `$[1:2:]` and `$[1:2]` return the same values on every canonical document -/
+example (cfg : Cfg) (cha chb : List N) (ha : parseModel exEnv exExt cfg (Spell.printS exColon) = .ok cha)
+    (hb : parseModel exEnv exExt cfg (Spell.printS exNoColon) = .ok chb) (d : Val) (hd : d.wf = true) :
+    runVals exEnv cha d = runVals exEnv chb d :=
+  C18_spellings_same_values_full_holds exEnv exExt cfg exColon exNoColon (by decide) (by decide)
+    (by simp only [ExtOKS, exColon, stepsExtS, stepExtS, subOKS, optOKS, tailOKS, intOKS, and_true,
+          List.not_mem_nil, false_implies, implies_true]
+        decide)
+    (by simp only [ExtOKS, exNoColon, stepsExtS, stepExtS, subOKS, optOKS, tailOKS, intOKS, and_true,
+          List.not_mem_nil, false_implies, implies_true]
+        decide)
+    (by simp [EnvOKS, exColon, stepsEnvS, stepEnvS]) (by simp [EnvOKS, exNoColon, stepsEnvS, stepEnvS]) rfl
+    cha chb ha hb d hd
+
+/-- … and the trees are equal up to recorded texts and that flag -/
+example (cfg : Cfg) :
+    SameOutcomeN (parseModel exEnv exExt cfg (Spell.printS exColon))
+      (parseModel exEnv exExt cfg (Spell.printS exNoColon)) :=
+  C18_spellings_parse_same_norm exEnv exExt cfg exColon exNoColon (by decide) (by decide)
+    (by simp only [ExtOKS, exColon, stepsExtS, stepExtS, subOKS, optOKS, tailOKS, intOKS, and_true,
+          List.not_mem_nil, false_implies, implies_true]
+        decide)
+    (by simp only [ExtOKS, exNoColon, stepsExtS, stepExtS, subOKS, optOKS, tailOKS, intOKS, and_true,
+          List.not_mem_nil, false_implies, implies_true]
+        decide)
+    (by simp [EnvOKS, exColon, stepsEnvS, stepEnvS]) (by simp [EnvOKS, exNoColon, stepsEnvS, stepEnvS]) rfl
+
 end C18Spell
 end JPV
 
@@ -488,4 +652,7 @@ end JPV
 --   JPV.SP.build_same JPV.SP.stripS_texts JPV.SP.strip_texts JPV.SP.recognise_spell JPV.SP.spell_parse_exact
 --   JPV.SP.spell_parse_exact' JPV.SP.spell_parse_exact_all JPV.C18Spell.SpellParse_full_holds
 --   JPV.C18Spell.C18_spellings_parse_same_full_holds JPV.C18Spell.exG_dom JPV.C18Spell.exH_dom
---   JPV.C18Spell.exG_ext JPV.C18Spell.exH_ext
+--   JPV.C18Spell.exG_ext JPV.C18Spell.exH_ext JPV.C18Spell.SpellParse_norm
+--   JPV.C18Spell.C18_spellings_parse_same_norm JPV.C18Spell.C18_spelling_C01_all
+--   JPV.C18Spell.C18_spellings_same_values_full_holds JPV.SP.spell_parse_norm_all JPV.SP.execFrom_norm
+--   JPV.SP.refines_of_norm JPV.SP.den_norm JPV.SP.wfChain_norm JPV.SP.build_clean
